@@ -405,9 +405,9 @@ match_virtual_override(const CPPFunctionType &other) const {
     return false;
   }
 
-  // An overrider may add noexcept, and override / final are not part of the
-  // function's type at all.
-  if (((_flags ^ other._flags) & ~(F_override | F_final | F_noexcept)) != 0) {
+  // An overrider may add noexcept, and override / final / a trailing return
+  // type are not part of the function's type at all.
+  if (((_flags ^ other._flags) & ~(F_override | F_final | F_noexcept | F_trailing_return_type)) != 0) {
     return false;
   }
 
